@@ -86,7 +86,7 @@ def stateless (toks : List String) : Option String :=
       if n + 32 ≤ U64 then s!"{v} | spec={Spec.Memory.words n}" else s!"{v}"
   | ["gas", w] => (dec? w).map fun w =>
       let v := memoryGas w
-      if w < 2^32 then s!"{v} | spec={Spec.Memory.memGas w}" else s!"{v}"
+      s!"{v} | spec={min (Spec.Memory.memGas w) (U64 - 1)}"
   | _ => none
 
 def handleOp (st : St) (toks : List String) : St × String :=
